@@ -36,8 +36,8 @@ import (
 	"fmt"
 	"math"
 	"math/bits"
-	"runtime"
 	"os"
+	"runtime"
 	"sort"
 	"sync"
 	"sync/atomic"
@@ -272,6 +272,10 @@ type kase struct {
 	recs []Rec
 	rt   bool // Export/Import + Merge round trips
 	aux  bool // Mean/StdDev/CumulativeDistribution/Distribution (panic oracle only)
+	// light: only the quantile 100 (a single recorded value has one rank; most
+	// other standard quantiles map to rank < 1 under some convention).
+	light bool
+	sym   bool // also evaluate Equals with receiver and argument swapped
 }
 
 const tol = 1e-6
@@ -356,7 +360,10 @@ func runCase(c *kase, a *acc) {
 
 	// quantiles
 	qs := []float64{0.001, 50, 99.999, 100}
-	if total > 0 {
+	if c.light {
+		qs = []float64{100}
+	}
+	if total > 0 && !c.light {
 		ranks := map[int64]bool{1: true, total: true, (total + 1) / 2: true}
 		if total <= 8 {
 			for k := int64(1); k <= total; k++ {
@@ -382,7 +389,11 @@ func runCase(c *kase, a *acc) {
 			}
 		}
 	}
-	for _, q := range qs {
+	sort.Float64s(qs)
+	for qi, q := range qs {
+		if qi > 0 && qs[qi-1] == q {
+			continue
+		}
 		cur, curArg = "ValueAtQuantile", q
 		v := h.ValueAtQuantile(q)
 		a.calls++
@@ -453,8 +464,12 @@ func runCase(c *kase, a *acc) {
 		cur = "Import"
 		h2 := hdrhist.Import(snap)
 		cur = "Equals"
-		e1, e2 := h2.Equals(h), h.Equals(h2)
-		a.calls += 4
+		e1, e2 := h2.Equals(h), true
+		if c.sym {
+			e2 = h.Equals(h2)
+			a.calls++
+		}
+		a.calls += 3
 		a.asserted++
 		if !e1 || !e2 {
 			a.fail("roundtrip/not-equal/Import", c, "Import(h.Export()).Equals(h)", nil, []bool{e1, e2}, "true")
@@ -466,8 +481,12 @@ func runCase(c *kase, a *acc) {
 		cur = "Merge"
 		dropped := e.Merge(h)
 		cur = "Equals"
-		m1, m2 := e.Equals(h), h.Equals(e)
-		a.calls += 4
+		m1, m2 := e.Equals(h), true
+		if c.sym {
+			m2 = h.Equals(e)
+			a.calls++
+		}
+		a.calls += 3
 		a.asserted += 2
 		if dropped != 0 {
 			a.fail("merge/dropped/Merge", c, "New(shape).Merge(h)", nil, dropped, "0")
@@ -501,6 +520,8 @@ type plan struct {
 	heavy      bool
 	rt, aux    bool
 	rtSingles  bool
+	inFull     map[int64]bool
+	sym        bool
 	slots      int64
 	nMultisets int
 	nHeavy     int
@@ -525,7 +546,7 @@ func makePlan(sh Shape, tier string) plan {
 	singleLimit, maxM, maxCore := int64(1)<<14, 3, 12
 	// budget: slot-visits a shape may spend on multiset+heavy cases; each case
 	// walks the counts array ~14 times when it contains a large value.
-	budget := int64(6e7)
+	budget := int64(4e7)
 	if tier == "thorough" {
 		singleLimit, maxM = 1<<16, 4
 		budget = 4e8
@@ -542,6 +563,10 @@ func makePlan(sh Shape, tier string) plan {
 		core = core[:maxCore]
 	}
 	p.allCore = core
+	p.inFull = map[int64]bool{}
+	for _, v := range full {
+		p.inFull[v] = true
+	}
 	// pick the largest (msize, |core|) that fits the budget; never below
 	// pairs over the 6 highest-priority values.
 	p.msize, p.core = 2, core
@@ -564,8 +589,8 @@ func makePlan(sh Shape, tier string) plan {
 	p.heavy = true
 	// heavy-duplicate cases: 2n single-value + 4n(n-1) ordered-pair cases over
 	// the n highest-priority core values, n as large as the same budget allows.
-	p.nHeavy = 3
-	for _, n := range []int{8, 6, 4} {
+	p.nHeavy = 2
+	for _, n := range []int{8, 6, 4, 3} {
 		if n <= len(core) && int64(2*n+4*n*(n-1))*14*p.slots <= budget {
 			p.nHeavy = n
 			break
@@ -576,7 +601,8 @@ func makePlan(sh Shape, tier string) plan {
 	}
 	p.rt = true
 	p.aux = p.slots <= 1<<14
-	p.rtSingles = p.slots <= 1<<16 || !p.singlesAll
+	p.rtSingles = p.slots <= 1<<16
+	p.sym = p.slots <= 1<<14
 	return p
 }
 
@@ -600,7 +626,13 @@ func Run(r *rep.Report, tier string) {
 	for i := range plans {
 		p := &plans[i]
 		// singles, in chunks
-		const chunk = 2048
+		chunk := int(3e6 / p.slots) // ~0.2 s of work per unit
+		if chunk < 1 {
+			chunk = 1
+		}
+		if chunk > 2048 {
+			chunk = 2048
+		}
 		for lo := 0; lo < len(p.singles); lo += chunk {
 			hi := lo + chunk
 			if hi > len(p.singles) {
@@ -609,12 +641,17 @@ func Run(r *rep.Report, tier string) {
 			vals := p.singles[lo:hi]
 			units = append(units, func(a *acc) {
 				for _, v := range vals {
-					runCase(&kase{sh: p.sh, recs: []Rec{{v, 1}}, rt: p.rtSingles, aux: p.aux}, a)
+					// round trips: always on small shapes, else only for boundary values
+					rt := p.rtSingles && (!p.singlesAll || p.slots <= 1024 || p.inFull[v])
+					for _, cv := range p.allCore {
+						rt = rt || cv == v
+					}
+					runCase(&kase{sh: p.sh, recs: []Rec{{v, 1}}, rt: rt, aux: p.aux && !p.singlesAll, light: true, sym: p.sym}, a)
 				}
 			})
 		}
 		// the empty histogram (panic oracle + TotalCount)
-		units = append(units, func(a *acc) { runCase(&kase{sh: p.sh, rt: true, aux: p.aux}, a) })
+		units = append(units, func(a *acc) { runCase(&kase{sh: p.sh, rt: true, aux: p.aux, sym: p.sym}, a) })
 		// multisets of size 2..msize, one unit per smallest element
 		for first := range p.core {
 			first := first
@@ -627,7 +664,7 @@ func Run(r *rep.Report, tier string) {
 						for j, ix := range idx {
 							recs[j] = Rec{p.core[ix], 1}
 						}
-						runCase(&kase{sh: p.sh, recs: recs, rt: p.rt, aux: p.aux}, a)
+						runCase(&kase{sh: p.sh, recs: recs, rt: p.rt, aux: p.aux, sym: p.sym}, a)
 					}
 					if len(idx) == p.msize {
 						return
@@ -648,7 +685,7 @@ func Run(r *rep.Report, tier string) {
 			units = append(units, func(a *acc) {
 				for _, v := range hv {
 					for _, n := range []int64{1000, 1_000_000} {
-						runCase(&kase{sh: p.sh, recs: []Rec{{v, n}}, rt: p.rt, aux: p.aux}, a)
+						runCase(&kase{sh: p.sh, recs: []Rec{{v, n}}, rt: p.rt, aux: p.aux, sym: p.sym}, a)
 					}
 				}
 			})
@@ -660,7 +697,7 @@ func Run(r *rep.Report, tier string) {
 							continue
 						}
 						for _, ns := range [][2]int64{{1, 999}, {1, 1_000_000}, {500_000, 500_000}, {3, 2}} {
-							runCase(&kase{sh: p.sh, recs: []Rec{{hv[i], ns[0]}, {hv[j], ns[1]}}, rt: p.rt, aux: p.aux}, a)
+							runCase(&kase{sh: p.sh, recs: []Rec{{hv[i], ns[0]}, {hv[j], ns[1]}}, rt: p.rt, aux: p.aux, sym: p.sym}, a)
 						}
 					}
 				})
@@ -677,7 +714,13 @@ func Run(r *rep.Report, tier string) {
 	workers := runtime.NumCPU()
 	accs := make([]*acc, workers)
 	next := make(chan int, len(units))
-	for i := range units {
+	order := make([]int, len(units))
+	for i := range order {
+		order[i] = i
+	}
+	// most expensive shapes first (better load balance at the tail)
+	sort.SliceStable(order, func(x, y int) bool { return plans[unitShape[order[x]]].slots > plans[unitShape[order[y]]].slots })
+	for _, i := range order {
 		next <- i
 	}
 	close(next)
